@@ -175,6 +175,8 @@ def random_jobs(rng, n, sizes, events=True):
                 v >= 0 for row in job["vals"] for v in row) else rng.choice(["int32", "int64"])
         if rng.random() < 0.2:
             job["dims"] = rng.choice([["lat", "lon"], ["row", "col"], ["northing", "easting"]])
+        if rng.random() < 0.3:
+            job["layout"] = rng.choice(["F", "T", "S", "R"])
         jobs.append(job)
     return jobs
 
